@@ -163,14 +163,14 @@ const OPERAND_NAMES: [&str; 4] = ["a", "b", "c", "e"];
 /// run one application in one form
 pub fn observe_app(app: &App, form: Form) -> Result<Obs, String> {
     match form {
-        Form::Built => {
-            let e = app.tree(&|_, v| RE::Val(v.clone())).to_expr();
-            Ok(eval_expr(&e, &Value::None))
-        }
-        Form::Ruleset => {
-            let e = app.tree(&|_, v| RE::Val(v.clone())).to_expr();
-            Ok(eval_via_ruleset(&e, &Value::None))
-        }
+        Form::Built => match app.tree(&|_, v| RE::Val(v.clone())).try_to_expr() {
+            Ok(e) => Ok(eval_expr(&e, &Value::None)),
+            Err(p) => Ok(Obs::Panic(format!("constructor: {p}"))),
+        },
+        Form::Ruleset => match app.tree(&|_, v| RE::Val(v.clone())).try_to_expr() {
+            Ok(e) => Ok(eval_via_ruleset(&e, &Value::None)),
+            Err(p) => Ok(Obs::Panic(format!("constructor: {p}"))),
+        },
         Form::Refs | Form::SameRef => {
             let same = form == Form::SameRef;
             let t = app.tree(&|i, _| RE::reff(if same { "a" } else { OPERAND_NAMES[i.min(3)] }));
@@ -661,7 +661,10 @@ fn composition_leg(prop: Prop, tier: Tier) -> Acc {
     let check_tree = |label: &str, tree: &RE, acc: &mut Acc| {
         let mut env = PlainEnv { facts: RV::None, symbols: BTreeMap::new() };
         let exp = eval(tree, &mut env);
-        let obs = eval_expr(&tree.to_expr(), &Value::None);
+        let obs = match tree.try_to_expr() {
+            Ok(e) => eval_expr(&e, &Value::None),
+            Err(p) => Obs::Panic(format!("constructor: {p}")),
+        };
         acc.count("executions", 1);
         acc.count("composite_trees", 1);
         acc.outcome(format!("composite:{}", obs.class()));
